@@ -68,6 +68,132 @@ theorem C19_history (fx : Fixes) (W H : Nat) (frames : List DrawState) :
     | cons ds rest ih => intro n h; exact ih _ (C19_llc_le_H fx ds W H n h)
   exact gen frames 0 (Nat.zero_le _)
 
+/-! ## which lines are painted when the bars do not all fit -/
+
+/-- the leading lines that fit: text lines always, a bar line as long as its rows still fit below the bar rows counted so far -/
+def fitPrefix (W H : Nat) : Nat → List Line → List Line
+  | _, [] => []
+  | real, l :: ls =>
+    if l.isBar && decide (real + wrappedHeight W l > H) then []
+    else l :: fitPrefix W H (if l.isBar then real + wrappedHeight W l else real) ls
+
+/-- rows of the bar lines among `ls` -/
+def barRowsOf (W : Nat) (ls : List Line) : Nat := ((ls.filter (·.isBar)).map (wrappedHeight W)).sum
+
+theorem fitPrefix_prefix (W H : Nat) : ∀ (ls : List Line) (real : Nat), fitPrefix W H real ls <+: ls := by
+  intro ls
+  induction ls with
+  | nil => intro real; simp [fitPrefix]
+  | cons l ls ih =>
+    intro real
+    unfold fitPrefix
+    split
+    · exact List.nil_prefix
+    · exact (List.cons_prefix_cons).mpr ⟨rfl, ih _⟩
+
+/-- **the painting loop paints exactly the leading lines that fit**: the bar rows it counts are those of `fitPrefix`, the
+number of lines it reports as written is the length of `fitPrefix` (none if it is empty) -/
+theorem paintLoop_fitPrefix (fx : Fixes) (W H total : Nat) (nc up : Bool) : ∀ (lines : List Line) (idx real : Nat),
+    (paintLoop fx W H total nc up idx real lines).2.1 = real + barRowsOf W (fitPrefix W H real lines) ∧
+    ((paintLoop fx W H total nc up idx real lines).2.2).map (·.1) =
+      (if fitPrefix W H real lines = [] then none else some (idx + (fitPrefix W H real lines).length)) := by
+  intro lines
+  induction lines with
+  | nil => intro idx real; simp [paintLoop, fitPrefix, barRowsOf]
+  | cons l ls ih =>
+    intro idx real
+    unfold paintLoop fitPrefix
+    dsimp only
+    split
+    · simp [barRowsOf]
+    · obtain ⟨h1, h2⟩ := ih (idx + 1) (if l.isBar then real + wrappedHeight W l else real)
+      refine ⟨?_, ?_⟩
+      · rw [h1]
+        by_cases hb : l.isBar = true
+        · simp [hb, barRowsOf, List.filter_cons]; omega
+        · have hb' : l.isBar = false := by simpa using hb
+          simp [hb', barRowsOf, List.filter_cons]
+      · simp only [List.cons_ne_nil, if_false, List.length_cons]
+        cases hr : (paintLoop fx W H total nc up (idx + 1) (if l.isBar = true then real + wrappedHeight W l else real) ls).2.2 with
+        | none =>
+          rw [hr] at h2
+          have : fitPrefix W H (if l.isBar = true then real + wrappedHeight W l else real) ls = [] := by
+            by_cases hne : fitPrefix W H (if l.isBar = true then real + wrappedHeight W l else real) ls = []
+            · exact hne
+            · simp [hne] at h2
+          simp [this]
+        | some x =>
+          rw [hr] at h2
+          have hne : fitPrefix W H (if l.isBar = true then real + wrappedHeight W l else real) ls ≠ [] := by
+            intro he; simp [he] at h2
+          simp only [Option.map_some, hne, if_false, Option.some.injEq] at h2
+          simp only [Option.map_some, Option.some.injEq]
+          omega
+
+/-- everything fits: nothing is left out -/
+theorem fitPrefix_all (W H : Nat) : ∀ (ls : List Line) (real : Nat), real + barRowsOf W ls ≤ H → fitPrefix W H real ls = ls := by
+  intro ls
+  induction ls with
+  | nil => intro real _; rfl
+  | cons l ls ih =>
+    intro real h
+    unfold fitPrefix
+    by_cases hb : l.isBar = true
+    · have hr : barRowsOf W (l :: ls) = wrappedHeight W l + barRowsOf W ls := by simp [barRowsOf, List.filter_cons, hb]
+      have hfit : ¬ (real + wrappedHeight W l > H) := by omega
+      simp only [hb, Bool.true_and, decide_eq_true_eq, hfit, if_false, if_true]
+      rw [ih _ (by omega)]
+    · have hb' : l.isBar = false := by simpa using hb
+      have hr : barRowsOf W (l :: ls) = barRowsOf W ls := by simp [barRowsOf, List.filter_cons, hb']
+      simp only [hb', Bool.false_and, Bool.false_eq_true, if_false]
+      rw [ih _ (by omega)]
+
+/-- something is left out only because the next bar does not fit -/
+theorem fitPrefix_maximal (W H : Nat) : ∀ (ls : List Line) (real : Nat), fitPrefix W H real ls ≠ ls →
+    ∃ l, (fitPrefix W H real ls ++ [l]) <+: ls ∧ l.isBar = true ∧
+      real + barRowsOf W (fitPrefix W H real ls) + wrappedHeight W l > H := by
+  intro ls
+  induction ls with
+  | nil => intro real h; exact absurd rfl h
+  | cons l ls ih =>
+    intro real h
+    unfold fitPrefix at h ⊢
+    split
+    · rename_i hc
+      simp only [Bool.and_eq_true, decide_eq_true_eq] at hc
+      exact ⟨l, by simp, hc.1, by simp [barRowsOf]; omega⟩
+    · rename_i hc
+      have hne : fitPrefix W H (if l.isBar = true then real + wrappedHeight W l else real) ls ≠ ls := by
+        intro he; apply h; rw [if_neg hc, he]
+      obtain ⟨x, hp, hx, hgt⟩ := ih _ hne
+      have hpre : (l :: fitPrefix W H (if l.isBar = true then real + wrappedHeight W l else real) ls) ++ [x] <+: l :: ls := by
+        rw [List.cons_append]; exact (List.cons_prefix_cons (a := l) (b := l)).mpr ⟨rfl, hp⟩
+      refine ⟨x, hpre, hx, ?_⟩
+      by_cases hb : l.isBar = true
+      · simp only [hb, if_true] at hgt
+        simp only [barRowsOf, List.filter_cons, hb, if_true, List.map_cons, List.sum_cons] at hgt ⊢; omega
+      · have hb' : l.isBar = false := by simpa using hb
+        simp only [hb', Bool.false_eq_true, if_false] at hgt
+        simp only [barRowsOf, List.filter_cons, hb', Bool.false_eq_true, if_false] at hgt ⊢; omega
+
+/-- **C19 (only the leading bars that fit are painted; omitted bars appear as soon as there is room).** For every frame, terminal size
+and repair set, `draw_to_term` counts exactly the bar rows of the longest leading part of the frame whose bars fit the terminal
+height (`fitPrefix`: text lines are never left out, it ends in front of the first bar whose rows would exceed `H`); this leading part is
+the whole frame as soon as the bar rows fit, and when something is left out the next line is a bar that really does not fit. -/
+theorem C19_leading_bars_painted (fx : Fixes) (W H : Nat) (ds : DrawState) (n : Nat) :
+    let p := paintLoop fx W H ds.lines.length (n == 0) ds.unparked 0 0 ds.lines
+    let shown := fitPrefix W H 0 ds.lines
+    shown <+: ds.lines ∧ p.2.1 = barRowsOf W shown ∧
+    (p.2.2.map (·.1) = if shown = [] then none else some shown.length) ∧
+    (barRowsOf W ds.lines ≤ H → shown = ds.lines) ∧
+    (shown ≠ ds.lines → ∃ l, (shown ++ [l]) <+: ds.lines ∧ l.isBar = true ∧ barRowsOf W shown + wrappedHeight W l > H) := by
+  intro p shown
+  obtain ⟨h1, h2⟩ := paintLoop_fitPrefix fx W H ds.lines.length (n == 0) ds.unparked ds.lines 0 0
+  refine ⟨fitPrefix_prefix W H ds.lines 0, by simpa using h1, by simpa using h2, fun h => fitPrefix_all W H ds.lines 0 (by omega), fun h => ?_⟩
+  obtain ⟨l, hp, hb, hgt⟩ := fitPrefix_maximal W H ds.lines 0 h
+  have hgt' : barRowsOf W (fitPrefix W H 0 ds.lines) + wrappedHeight W l > H := by omega
+  exact ⟨l, hp, hb, hgt'⟩
+
 /-- **A frame after a cut-off frame whose rows were all kept starts on a fresh row** (repair of F33).
 When the previous frame was cut off at the terminal height (`unparked`) and nothing is to be erased
 (`n = 0`: its rows were handed over as zombie rows), the first thing written after the (empty) clearing
